@@ -202,25 +202,20 @@ def _constructed_scalings(prog):
 
 @rule("SD1", "every scaling class is routed to a call whose arity and operand order match its scale method", floor=14)
 def sd1(ctx, R):
+    from .sem import instance_attrs, method_of, leaves, flat_conds, match, W, module_region, keyed_constructions
+    from .sym import Sym, show
     prog = ctx.prog
     classes = _constructed_scalings(prog)
     cs = prog.func("scaling.MultiScaling._compute_scaled_data")
     for ci in sorted(classes, key=lambda c: c.qual):
-        init = ci.methods.get("__init__")
         where = "%s:%d" % (ci.module.relpath, ci.node.lineno)
-        attrs = set()
-        if init is not None:
-            for n in walk_body(init.node):
-                if isinstance(n, ast.Assign):
-                    for t in n.targets:
-                        if isinstance(t, ast.Attribute) and dotted(t.value) == "self":
-                            attrs.add(t.attr)
+        attrs = set(instance_attrs(prog, ci))
         if ci.name == "DaqMxScalerScaling":
-            f = ci.methods.get("scale_daqmx")
+            f = method_of(prog, ci, "scale_daqmx")
             R.check(f is not None and len(f.params) == 2, ci.qual + "::scale_daqmx(scaler_data)", where, "DAQmx scaler selection",
                     "DaqMxScalerScaling lacks scale_daqmx(self, scaler_data)")
             continue
-        f = ci.methods.get("scale")
+        f = method_of(prog, ci, "scale")
         if f is None:
             R.violation(ci.qual + "::scale", where, "scaling class constructed by _get_channel_scaling has no scale method")
             continue
@@ -234,51 +229,73 @@ def sd1(ctx, R):
         else:
             R.violation(ci.qual + "::input source", where, "class sets neither input_source nor left/right input sources: _compute_scaled_data "
                         "cannot route it")
-    # the evaluator: operands come from the matching input sources, in order
-    defs = {}
-    for n in walk_body(cs.node):
-        if isinstance(n, ast.Assign) and isinstance(n.targets[0], ast.Name) and isinstance(n.value, ast.Call) \
-                and call_name(n.value) == "self._compute_scaled_data" and n.value.args:
-            defs[n.targets[0].id] = unparse(n.value.args[0])
-    calls = [c for c in walk_body(cs.node) if isinstance(c, ast.Call) and call_name(c) == "scaling.scale"]
-    if len(calls) < 2:
-        raise AnchorMissing("scaling.MultiScaling._compute_scaled_data: scaling.scale(...) calls")
-    for c in calls:
-        srcs = [defs.get(a.id) if isinstance(a, ast.Name) else unparse(a) for a in c.args]
-        if len(c.args) == 1:
-            R.check(srcs == ["scaling.input_source"], "scaling.MultiScaling._compute_scaled_data::unary", cs.where(c),
-                    "scale(input computed from scaling.input_source)", "unary scale is fed from %s" % srcs)
-        elif len(c.args) == 2:
-            R.check(srcs == ["scaling.left_input_source", "scaling.right_input_source"], "scaling.MultiScaling._compute_scaled_data::binary", cs.where(c),
-                    "scale(left from left_input_source, right from right_input_source)",
-                    "binary scale operands come from %s (expected left, right in this order: Subtract is not commutative)" % srcs)
-    # recursion base case and DAQmx case
-    txt = unparse(cs.node)
-    R.check("scale_index == RAW_DATA_INPUT_SOURCE" in txt and "return raw_channel_data.data" in txt, "scaling.MultiScaling._compute_scaled_data::base case", cs.where(),
-            "input source 0xFFFFFFFF is the raw data", "the raw-data input source is not resolved to raw_channel_data.data")
-    R.check("scaling.scale_daqmx(raw_channel_data.scaler_data)" in txt, "scaling.MultiScaling._compute_scaled_data::daqmx", cs.where(),
-            "DAQmx scaler scalings read the raw scaler data", "DAQmx scaler scaling is not fed raw_channel_data.scaler_data")
+    # the evaluator in normal form: a conditional value whose leaves are the raw data, the DAQmx scaler selection, and
+    # scale calls fed by recursive evaluations of the matching input sources, in order
+    ps = [p for p in cs.params if p != "self"]
+    if len(ps) < 2:
+        raise AnchorMissing("scaling.MultiScaling._compute_scaled_data: (scale index, raw data) parameters")
+    idx, raw = ("param", ps[0]), ("param", ps[1])
+    S = ("sub", ("self", "scalings"), idx)
+    v = Sym(prog, cs, cs.cls).function_value()
+    if v[0] == "opaque":
+        raise AnchorMissing("scaling.MultiScaling._compute_scaled_data: body not in normal form")
+    lv = leaves(v)
+
+    def rec(src):
+        return ("call", cs.qual, (("attr", S, src), raw), ())
+    seen = {"base": False, "daqmx": False, "unary": False, "binary": False}
+    RAW = prog.try_fold(prog.module("scaling").assigns.get("RAW_DATA_INPUT_SOURCE"), prog.module("scaling"))
+    for conds, leaf in lv:
+        fc = flat_conds(conds)
+        if leaf == ("attr", raw, "data"):
+            ok = any(c in (("cmp", "==", idx, ("const", 0xFFFFFFFF)), ("cmp", "==", ("const", 0xFFFFFFFF), idx)) for c in fc)
+            seen["base"] = True
+            R.check(ok and RAW == 0xFFFFFFFF, "scaling.MultiScaling._compute_scaled_data::base case", cs.where(), "input source 0xFFFFFFFF is the raw data",
+                    "the raw-data input source is not resolved to raw_channel_data.data under `index == 0xFFFFFFFF` (selected by %s)" % ", ".join(show(c) for c in fc)[:160])
+            continue
+        b = match(("method", "scale_daqmx", W("recv"), W("args"), W()), leaf)
+        if b is not None:
+            seen["daqmx"] = True
+            R.check(b["recv"] == S and b["args"] == (("attr", raw, "scaler_data"),), "scaling.MultiScaling._compute_scaled_data::daqmx", cs.where(),
+                    "DAQmx scaler scalings read the raw scaler data", "DAQmx scaler scaling is fed `%s`, not the raw scaler data" % show(leaf)[:120])
+            continue
+        b = match(("method", "scale", W("recv"), W("args"), W()), leaf)
+        if b is not None and b["recv"] == S:
+            args = b["args"]
+            if len(args) == 1:
+                seen["unary"] = True
+                R.check(args[0] == rec("input_source"), "scaling.MultiScaling._compute_scaled_data::unary", cs.where(),
+                        "scale(input computed from scaling.input_source)", "unary scale is fed from `%s`" % show(args[0])[:140])
+            elif len(args) == 2:
+                seen["binary"] = True
+                R.check(args == (rec("left_input_source"), rec("right_input_source")), "scaling.MultiScaling._compute_scaled_data::binary", cs.where(),
+                        "scale(left from left_input_source, right from right_input_source)",
+                        "binary scale operands are `%s` (expected left, right in this order: Subtract is not commutative)" % ", ".join(show(a) for a in args)[:200])
+            else:
+                R.violation("scaling.MultiScaling._compute_scaled_data::arity", cs.where(), "scale called with %d operands" % len(args))
+            continue
+        R.undecided("scaling.MultiScaling._compute_scaled_data::result `%s`" % show(leaf)[:50], cs.where(), "result form not understood")
+    for k, hit in seen.items():
+        if not hit:
+            R.violation("scaling.MultiScaling._compute_scaled_data::%s" % {"base": "base case", "daqmx": "daqmx"}.get(k, k), cs.where(),
+                        "the evaluator has no %s result any more" % {"base": "raw data (input source 0xFFFFFFFF)", "daqmx": "DAQmx scaler",
+                                                                     "unary": "one-input scale", "binary": "two-input scale"}[k])
     mod = prog.module("scaling")
-    R.check(prog.try_fold(mod.assigns.get("RAW_DATA_INPUT_SOURCE"), mod) == 0xFFFFFFFF, "scaling.RAW_DATA_INPUT_SOURCE", "%s:1" % mod.relpath,
-            "0xFFFFFFFF", "RAW_DATA_INPUT_SOURCE changed")
+    R.check(RAW == 0xFFFFFFFF, "scaling.RAW_DATA_INPUT_SOURCE", "%s:1" % mod.relpath, "0xFFFFFFFF", "RAW_DATA_INPUT_SOURCE changed")
     # the output is the last scale, for data and for dtype alike
-    for q in ("scaling.MultiScaling.scale", "scaling.MultiScaling.get_dtype"):
+    sy0 = Sym(prog, cs, cs.cls)
+    last = sy0._binop("-", ("len", ("self", "scalings")), ("const", 1))
+    for q, inner in (("scaling.MultiScaling.scale", "scaling.MultiScaling._compute_scaled_data"),
+                     ("scaling.MultiScaling.get_dtype", "scaling.MultiScaling._compute_scale_dtype")):
         f = prog.func(q)
-        ok = any(isinstance(n, ast.Assign) and unparse(n.value).replace(" ", "") == "len(self.scalings)-1" for n in walk_body(f.node))
-        R.check(ok, q + "::final scale", f.where(), "output is scale len(scalings) - 1", "the output scale is not the last scale")
-    # elif chain covers every scale type name with its own class
+        val = Sym(prog, f, f.cls, stack=(inner,)).function_value()
+        b = match(("call", inner, W("args"), W()), val)
+        ok = b is not None and b["args"] and b["args"][0] == last
+        R.check(ok, q + "::final scale", f.where(), "output is scale len(scalings) - 1",
+                "the output scale is `%s`, not the last scale" % (show(b["args"][0])[:80] if b and b["args"] else show(val)[:80]))
+    # every scale type name is built by its own class
     gcs = prog.func("scaling._get_channel_scaling")
-    pairs = {}
-    for n in ast.walk(gcs.node):
-        if isinstance(n, ast.If) and isinstance(n.test, ast.Compare) and dotted(n.test.left) == "scale_type" \
-                and isinstance(n.test.comparators[0], ast.Constant):
-            name = n.test.comparators[0].value
-            cls_ = None
-            for s in n.body:
-                for c in walk_shallow(s):
-                    if isinstance(c, ast.Call) and isinstance(c.func, ast.Attribute) and c.func.attr == "from_properties":
-                        cls_ = dotted(c.func.value)
-            pairs[name] = cls_
+    pairs = {k: v[0].name for k, v in keyed_constructions(prog, module_region(prog, gcs)).items()}
     expected = {"Polynomial": "PolynomialScaling", "Linear": "LinearScaling", "RTD": "RtdScaling", "Strain": "StrainScaling",
                 "Table": "TableScaling", "Thermistor": "ThermistorScaling", "Thermocouple": "ThermocoupleScaling", "Add": "AddScaling",
                 "Subtract": "SubtractScaling", "AdvancedAPI": "NoOpScaling"}
@@ -289,42 +306,55 @@ def sd1(ctx, R):
 
 @rule("NS1", "the number of scales is the declared count, else the highest NI_Scale index + 1", floor=2)
 def ns1(ctx, R):
+    from .sem import leaves, flat_conds, match, W, find
+    from .sym import Sym, show
     prog = ctx.prog
     fi = prog.func("scaling._get_number_of_scalings")
-    rets = [n for n in walk_body(fi.node) if isinstance(n, ast.Return) and n.value is not None]
-    explicit = [r for r in rets if "num_scalings_property" in unparse(r.value) or "NI_Number_Of_Scales" in unparse(r.value)]
-    R.check(bool(explicit) and "int(" in unparse(explicit[0].value), "scaling._get_number_of_scalings::explicit count", fi.where(),
+    P = ("param", fi.params[0])
+    v = Sym(prog, fi, None).function_value()
+    if v[0] == "opaque":
+        R.undecided("scaling._get_number_of_scalings::inferred count", fi.where(), "function body not in normal form")
+        return
+    NAME = ("const", "NI_Number_Of_Scales")
+    explicit_ok = False
+    fallback = []
+    for conds, leaf in leaves(v):
+        fc = flat_conds(conds)
+        if ("cmp", "in", NAME, P) in fc:
+            b = match(("call", "int", (W("x"),), ()), leaf)
+            explicit_ok = b is not None and (b["x"] == ("sub", P, NAME) or match(("method", "get", P, W(), W()), b["x"]) is not None)
+        else:
+            fallback.append(leaf)
+    R.check(explicit_ok, "scaling._get_number_of_scalings::explicit count", fi.where(),
             "NI_Number_Of_Scales is used when present", "NI_Number_Of_Scales is not honoured")
-    fallback = [r for r in rets if r not in explicit and not (isinstance(r.value, ast.Constant) and r.value.value is None)]
     if not fallback:
         raise AnchorMissing("scaling._get_number_of_scalings: fallback return")
-    def cone(expr, depth=0):
-        """the expression plus the definitions of the locals it uses"""
-        out = [expr]
-        if depth < 3:
-            for x in ast.walk(expr):
-                if isinstance(x, ast.Name) and x.id not in fi.params:
-                    for n in walk_body(fi.node):
-                        if isinstance(n, ast.Assign) and any(isinstance(t, ast.Name) and t.id == x.id for t in n.targets):
-                            out.extend(cone(n.value, depth + 1))
-        return out
-    for r in fallback:
-        exprs = cone(r.value)
-        nodes = [x for e in exprs for x in ast.walk(e)]
-        txt = " ".join(unparse(e) for e in exprs).replace(" ", "")
-        has_max = any(isinstance(x, ast.Call) and call_name(x) == "max" for x in nodes)
-        plus1 = any(isinstance(x, ast.BinOp) and isinstance(x.op, ast.Add) and (
-            (isinstance(x.right, ast.Constant) and x.right.value == 1) or (isinstance(x.left, ast.Constant) and x.left.value == 1)) for x in nodes)
-        counts = any(isinstance(x, ast.Call) and call_name(x) in ("len", "sum") for x in nodes)
-        key = "scaling._get_number_of_scalings::inferred count"
-        if has_max and plus1 and "group(1)" in txt:
-            R.ok(key, fi.where(r), "max(index) + 1 over NI_Scale[i]_Scale_Type properties")
-        elif counts and not has_max:
-            R.violation(key, fi.where(r), "the number of scales is inferred by counting NI_Scale[i]_Scale_Type properties (`%s`): scales without a "
+    key = "scaling._get_number_of_scalings::inferred count"
+    for leaf in fallback:
+        body = leaf[1] if leaf[0] == "try" else leaf
+        if body == ("const", None):
+            continue
+        good = False
+        if body[0] == "binop" and body[1] == "+" and ("const", 1) in body[2] and len(body[2]) == 2:
+            other = [t for t in body[2] if t != ("const", 1)]
+            b = match(("call", "max", (W("seq"),), W()), other[0]) if other else None
+            if b is not None and b["seq"][0] == "comp":
+                _t, elt, bv, it, conds = b["seq"]
+                e = match(("call", "int", (("method", "group", W("m"), (("const", 1),), ()),), ()), elt)
+                if e is not None and match(("method", "match", W(), (bv,), ()), e["m"]) is not None \
+                        and (it == P or it == ("method", "keys", P, (), ())) and all(c == ("cmp", "is not", e["m"], ("const", None)) for c in conds) and conds:
+                    good = True
+        if good:
+            R.ok(key, fi.where(), "max(index) + 1 over NI_Scale[i]_Scale_Type properties")
+        elif find(body, ("len", W())) or find(body, ("sum", W(), W(), W(), W())) and not find(body, ("call", "max", W(), W())):
+            R.violation(key, fi.where(), "the number of scales is inferred by counting NI_Scale[i]_Scale_Type properties (`%s`): scales without a "
                         "Scale_Type property (DAQmx raw scalers occupy the low indices) make the count smaller than highest index + 1 and the last "
-                        "scale, which is the output, is dropped" % unparse(r.value))
+                        "scale, which is the output, is dropped" % show(body)[:160])
+        elif find(body, ("call", "max", W(), W())) and body[0] != "binop":
+            R.violation(key, fi.where(), "the inferred number of scales is `%s`: the highest scale index itself, not highest index + 1, so the last scale, "
+                        "which is the output, is dropped" % show(body)[:160])
         else:
-            R.undecided(key, fi.where(r), "fallback expression `%s` not understood" % unparse(r.value))
+            R.undecided(key, fi.where(), "fallback expression `%s` not understood" % show(body)[:160])
     rx = prog.module("scaling").assigns.get("_scale_regex")
     pat = None
     if isinstance(rx, ast.Call) and rx.args:
@@ -332,119 +362,162 @@ def ns1(ctx, R):
     R.check(pat == r"NI_Scale\[(\d+)\]_Scale_Type", "scaling._scale_regex", fi.where(), "pattern %r" % pat, "scale index pattern changed to %r" % pat)
 
 
+def _constructs_scaling(prog, f, c):
+    """does this call build a scaling object (Cls(...), Cls.from_properties(...)) directly"""
+    e = c.func
+    if isinstance(e, ast.Attribute) and e.attr == "from_properties":
+        e = e.value
+    ci = prog.resolve_class(f.module, e) if isinstance(e, (ast.Name, ast.Attribute)) else None
+    return ci is not None and ci.module.name == "scaling"
+
+
 @rule("ST1", "NI_Scaling_Status='scaled' is decided before any scale object is built", floor=1)
 def st1(ctx, R):
+    from .sem import module_region, find, W
+    from .sym import Sym, show
     prog = ctx.prog
     fi = prog.func("scaling._get_channel_scaling")
     cfg = ctx.cfg(fi)
-    tests = cfg.where(lambda n: n.kind == "test" and "scaled" in unparse(n.ast) and "scaling_status" in unparse(n.ast))
+    sy = Sym(prog, fi, None)
+    P = ("param", fi.params[0])
+    STATUS = ("const", "NI_Scaling_Status")
+    tests = []
+    for t in cfg.where(lambda n: n.kind == "test"):
+        env, _g = sy.env_at(t.ast)
+        c = sy.expr(t.ast, env)
+        if isinstance(c, tuple) and c and c[0] == "cmp" and c[1] in ("==", "!=") and ("const", "scaled") in (c[2], c[3]):
+            other = c[3] if c[2] == ("const", "scaled") else c[2]
+            reads_status = other == ("sub", P, STATUS) or (other[0] == "method" and other[1] == "get" and other[2] == P and other[3] and other[3][0] == STATUS)
+            tests.append((t, c, reads_status))
     if not tests:
         raise AnchorMissing("scaling._get_channel_scaling: test of NI_Scaling_Status")
-    t = tests[0]
-    true_succ = [m for m, k in t.succ if k == "true"]
-    ret_none = all(m.kind == "return" and (m.ast.value is None or (isinstance(m.ast.value, ast.Constant) and m.ast.value.value is None)) for m in true_succ)
-    ctor_nodes = cfg.where(lambda n: any(isinstance(c.func, ast.Attribute) and c.func.attr == "from_properties" or call_name(c) in ("DaqMxScalerScaling", "MultiScaling")
-                                         for c in node_calls(n)))
-    dom = all(cfg.dominated_by(c, lambda n: n is t)[0] for c in ctor_nodes)
-    R.check(ret_none and dom and ctor_nodes, "scaling._get_channel_scaling::status test first", fi.where(t.ast),
+    t, c, reads_status = tests[0]
+    R.check(reads_status, "scaling._get_channel_scaling::status property", fi.where(t.ast),
+            "reads NI_Scaling_Status", "the status compared with 'scaled' is `%s`, not the NI_Scaling_Status property" % show(c)[:120])
+    branch = "true" if c[1] == "==" else "false"
+    succ = [m for m, k in t.succ if k == branch]
+    ret_none = bool(succ) and all(m.kind == "return" and (m.ast.value is None or (isinstance(m.ast.value, ast.Constant) and m.ast.value.value is None)) for m in succ)
+    helpers = [f for f in module_region(prog, fi) if f is not fi and any(isinstance(x, ast.Call) and _constructs_scaling(prog, f, x) for x in walk_body(f.node))]
+    hq = {f.qual for f in helpers}
+
+    def builds(n):
+        for x in node_calls(n):
+            if _constructs_scaling(prog, fi, x):
+                return True
+            r = prog.resolve_expr(fi.module, x.func) if isinstance(x.func, (ast.Name, ast.Attribute)) else None
+            if r and r[0] == "func" and r[1].qual in hq:
+                return True
+        return False
+    ctor_nodes = cfg.where(builds)
+    dom = all(cfg.dominated_by(n, lambda m: m is t)[0] for n in ctor_nodes)
+    R.check(ret_none and dom and bool(ctor_nodes), "scaling._get_channel_scaling::status test first", fi.where(t.ast),
             "returns None for already-scaled data before constructing scalings (lookup continues with the next scope)",
             "the 'scaled' status test does not precede all scaling constructions or does not return None")
-    d = [n for n in walk_body(fi.node) if isinstance(n, ast.Assign) and any(isinstance(x, ast.Name) and x.id == "scaling_status" for x in n.targets)]
-    R.check(bool(d) and "NI_Scaling_Status" in unparse(d[0].value), "scaling._get_channel_scaling::status property", fi.where(),
-            "reads NI_Scaling_Status", "status is not read from NI_Scaling_Status")
 
 
 @rule("AO1", "scaling properties are looked up channel, then group, then file - each from the complete property map", floor=6)
 def ao1(ctx, R):
+    """Roles are followed positionally: the order in which get_scaling tries its parameters, the attributes TdmsChannel._scaling
+    passes for them, the constructor parameters those attributes are stored from, and the values TdmsFile._read_file binds to
+    those parameters - which must be lookups in the complete property map keyed by the channel path, its group path and '/'."""
+    from .sem import match, W, find, instance_attrs, calls_to, call_arg
+    from .sym import Sym, show
     prog = ctx.prog
     gs = prog.func("scaling.get_scaling")
-    R.check(gs.params[:3] == ["channel_properties", "group_properties", "file_properties"], "scaling.get_scaling::signature", gs.where(),
-            "(channel, group, file)", "parameter order is %s" % gs.params)
-    lists = [n for n in ast.walk(gs.node) if isinstance(n, ast.List) and len(n.elts) == 3]
-    order = [dotted(e) for e in lists[0].elts] if lists else None
-    R.check(order == gs.params[:3], "scaling.get_scaling::lookup order", gs.where(), "tries %s in order" % order,
-            "scopes are tried in the order %s (expected channel, group, file)" % order)
-    first = any(isinstance(n, ast.Call) and call_name(n) == "next" for n in ast.walk(gs.node)) and "is not None" in unparse(gs.node)
-    R.check(first, "scaling.get_scaling::first non-None wins", gs.where(), "next(s for s in scalings if s is not None)", "the first scope with a scaling does not win")
+    gcs = prog.func("scaling._get_channel_scaling")
+    v = Sym(prog, gs, None).function_value()
+    b = match(("first", ("comp", W("elt"), W("bv"), W("it"), W("conds")), W("rest")), v)
+    params = [("param", p) for p in gs.params[:3]]
+    if b is None and find(v, ("sub", ("comp", W(), W(), W(), W()), ("const", -1))):
+        R.violation("scaling.get_scaling::first non-None wins", gs.where(), "the LAST scope that defines a scaling wins (`%s`): file or group scalings "
+                    "override the channel's own" % show(v)[:160])
+    elif b is None:
+        R.undecided("scaling.get_scaling::lookup order", gs.where(), "search form `%s` not understood" % show(v)[:160])
+    else:
+        order = list(b["it"][1]) if b["it"][0] in ("list", "tuple") else None
+        R.check(order == params, "scaling.get_scaling::lookup order", gs.where(), "tries %s in order" % [p[1] for p in params],
+                "scopes are tried in the order %s (expected the parameter order %s)" % ([show(x) for x in order] if order else show(b["it"]), [p[1] for p in params]))
+        elt_ok = b["elt"] == ("call", gcs.qual, (b["bv"],), ())
+        first = elt_ok and b["conds"] == (("cmp", "is not", b["elt"], ("const", None)),) and b["rest"] == ("const", None)
+        R.check(first, "scaling.get_scaling::first non-None wins", gs.where(), "the first scope with a scaling wins; None if there is none",
+                "the first scope with a scaling does not win: `%s`" % show(v)[:200])
+    # TdmsChannel._scaling -> attributes per priority
     sc = prog.func("tdms.TdmsChannel._scaling")
-    call = [c for c in walk_body(sc.node) if isinstance(c, ast.Call) and call_name(c) in ("scaling.get_scaling", "get_scaling")]
+    call = calls_to(prog, sc, gs.qual)
     if not call:
         raise AnchorMissing("tdms.TdmsChannel._scaling: call of scaling.get_scaling")
-    args = [dotted(a) for a in call[0].args]
-    R.check(args == ["self.properties", "self._group_properties", "self._file_properties"], "tdms.TdmsChannel._scaling::arguments", sc.where(call[0]),
-            "get_scaling(channel, group, file properties)", "get_scaling is called with %s" % args)
+    sy = Sym(prog, sc, sc.cls)
+    env, _g = sy.env_at(call[0])
+    attrs = []
+    for p in gs.params[:3]:
+        a = call_arg(prog, call[0], gs, p, sy, env)
+        attrs.append(a[1] if a and a[0] == "self" else None)
+    R.check(all(attrs) and len(set(attrs)) == 3, "tdms.TdmsChannel._scaling::arguments", sc.where(call[0]),
+            "get_scaling(%s)" % ", ".join("self.%s" % a for a in attrs if a), "get_scaling is not called with three distinct attributes of the channel")
+    if not all(attrs):
+        return
+    # attributes -> constructor parameters
+    cls = prog.cls("tdms.TdmsChannel")
     init = prog.func("tdms.TdmsChannel.__init__")
-    stores = {}
-    for n in walk_body(init.node):
-        if isinstance(n, ast.Assign) and isinstance(n.targets[0], ast.Attribute) and isinstance(n.value, ast.Name):
-            stores[n.targets[0].attr] = n.value.id
-    want = {"properties": "properties", "_group_properties": "group_properties", "_file_properties": "file_properties"}
-    R.check(all(stores.get(k) == v for k, v in want.items()), "tdms.TdmsChannel.__init__::roles stored", init.where(),
-            "each property scope is stored under its own attribute", "constructor stores %s" % {k: stores.get(k) for k in want})
+    ia = instance_attrs(prog, cls)
+    cparams = []
+    for a in attrs:
+        src = None
+        for f, n in ia.get(a, []):
+            if isinstance(n, ast.Assign) and isinstance(n.value, ast.Name) and n.value.id in f.params:
+                src = n.value.id
+        cparams.append(src)
+    R.check(all(cparams) and len(set(cparams)) == 3, "tdms.TdmsChannel.__init__::roles stored", init.where(),
+            "each property scope is stored under its own attribute (%s)" % dict(zip(attrs, cparams)), "constructor stores %s" % dict(zip(attrs, cparams)))
+    if not all(cparams):
+        return
+    # _read_file -> values bound to those parameters
     rf = prog.func("tdms.TdmsFile._read_file")
-    ctor = [c for c in walk_body(rf.node) if isinstance(c, ast.Call) and dotted(c.func) == "TdmsChannel"]
+    ctor = [c for c in walk_body(rf.node) if isinstance(c, ast.Call) and isinstance(c.func, (ast.Name, ast.Attribute)) and prog.resolve_class(rf.module, c.func) is cls]
     if len(ctor) != 1:
         raise AnchorMissing("tdms.TdmsFile._read_file: one TdmsChannel(...) construction")
     c = ctor[0]
-    params = init.params[1:]
-    bound = {}
-    for i, a in enumerate(c.args):
-        if i < len(params):
-            bound[params[i]] = a
-    for k in c.keywords:
-        bound[k.arg] = k.value
-    # enclosing loop of the construction and maps stored into inside it
-    loop = None
-    for n in walk_body(rf.node):
-        if isinstance(n, ast.For) and any(x is c for x in ast.walk(n)):
-            loop = n
-            break
-    filled_in_loop = set()
-    if loop is not None:
-        for n in ast.walk(loop):
-            if isinstance(n, ast.Assign):
-                for t in n.targets:
-                    if isinstance(t, ast.Subscript) and isinstance(t.value, ast.Name):
-                        filled_in_loop.add(t.value.id)
-            if isinstance(n, ast.Call) and isinstance(n.func, ast.Attribute) and n.func.attr in ("setdefault", "update") and isinstance(n.func.value, ast.Name):
-                filled_in_loop.add(n.func.value.id)
+    sr = Sym(prog, rf, rf.cls)
+    env, _g = sr.env_at(c)
+    loops = env.get("<iter>", ())
+    if not loops:
+        raise AnchorMissing("tdms.TdmsFile._read_file: TdmsChannel constructed inside the loop over the objects")
+    it, bv = loops[-1]
+    keyvar = ("item", bv, 0)
 
-    def source(expr, depth=0):
-        """-> (map name, key text)"""
-        if isinstance(expr, ast.Subscript) and isinstance(expr.value, ast.Name):
-            return expr.value.id, unparse(expr.slice)
-        if isinstance(expr, ast.Call) and isinstance(expr.func, ast.Attribute) and expr.func.attr == "get" and isinstance(expr.func.value, ast.Name) and expr.args:
-            return expr.func.value.id, unparse(expr.args[0])
-        if isinstance(expr, ast.Name) and depth < 3:
-            ds = [n for n in walk_body(rf.node) if isinstance(n, ast.Assign) and any(isinstance(t, ast.Name) and t.id == expr.id for t in n.targets)]
-            srcs = [source(d.value, depth + 1) for d in ds]
-            srcs = [s_ for s_ in srcs if s_ is not None]
-            return srcs[0] if srcs else None
-        if isinstance(expr, ast.Attribute) and dotted(expr) == "self._properties":
-            ds = [n for n in walk_body(rf.node) if isinstance(n, ast.Assign) and any(dotted(t) == "self._properties" for t in n.targets)]
-            srcs = [source(d.value, depth + 1) for d in ds]
-            srcs = [s_ for s_ in srcs if s_ is not None]
-            return srcs[0] if srcs else None
-        return None
-    roles = {"properties": ("channel", lambda k: k in ("path_string",)),
-             "group_properties": ("group", lambda k: "group_path()" in k),
-             "file_properties": ("file", lambda k: k in ("'/'", '"/"'))}
-    for pname, (role, key_ok) in roles.items():
+    def lookups(val):
+        out = [(x[1], x[2]) for x, _b in find(val, ("sub", W(), W()))]
+        out += [(x[2], x[3][0]) for x, _b in find(val, ("method", "get", W(), W(), W())) if x[3]]
+        return out
+
+    def depends_on_key(k):
+        from .sem import mentions
+        return mentions(k, keyvar)
+    roles = [("channel", lambda k: k == keyvar, "the path string of the object being visited"),
+             ("group", lambda k: k[0] == "method" and k[1] == "group_path" and depends_on_key(k[2]), "the group path of the object being visited"),
+             ("file", lambda k: k == ("const", "/"), "'/'")]
+    for (role, key_ok, what), pname in zip(roles, cparams):
         key = "tdms.TdmsFile._read_file::%s properties passed to TdmsChannel" % role
-        a = bound.get(pname)
-        if a is None:
+        val = call_arg(prog, c, init, pname, sr, env)
+        if val is None:
             R.violation(key, rf.where(c), "TdmsChannel is constructed without %s" % pname)
             continue
-        src = source(a)
-        if src is None:
-            R.undecided(key, rf.where(c), "source of `%s` not understood" % unparse(a))
-            continue
-        m, k = src
-        if m in filled_in_loop:
+        if val[0] == "self" and ("self." + val[1]) in env:
+            val = env["self." + val[1]]
+        if val[0] == "loop" or any(m[0] == "loop" for m, k in lookups(val)):
+            name = val[1] if val[0] == "loop" else [m for m, k in lookups(val) if m[0] == "loop"][0][1]
             R.violation(key, rf.where(c), "the %s properties come from `%s`, a map that is still being filled inside the same loop over the file's "
                         "objects: a %s object that appears after the channel (later in the segment or in a later segment) is not seen, so its "
-                        "scaling properties are ignored" % (role, m, role))
-        elif not key_ok(k):
-            R.violation(key, rf.where(c), "the %s properties are looked up with key `%s`" % (role, k))
+                        "scaling properties are ignored" % (role, name, role))
+            continue
+        lk = lookups(val)
+        if not lk:
+            R.undecided(key, rf.where(c), "source of `%s` not understood" % show(val)[:120])
+            continue
+        complete = all(m[0] in ("dictcomp", "dict") or (m[0] == "call" and m[1] in ("dict", "collections.OrderedDict") and m[2]) for m, k in lk)
+        if not complete:
+            R.undecided(key, rf.where(c), "map `%s` not recognised as built before the loop" % show(lk[0][0])[:100])
+        elif not all(key_ok(k) for m, k in lk):
+            R.violation(key, rf.where(c), "the %s properties are looked up with key `%s` (expected %s)" % (role, show([k for m, k in lk if not key_ok(k)][0])[:100], what))
         else:
-            R.ok(key, rf.where(c), "%s[%s], a map completed before the loop" % (m, k))
+            R.ok(key, rf.where(c), "complete map looked up by %s" % what)
